@@ -239,7 +239,11 @@ def _validate_concretely(rec, prob, kwargs, assumptions, mk, tag):
     # The witness query runs in a z3 context of its own: creating terms / solving in the main context shifts z3's internal term
     # order, and one NRA obligation (C05 softabs dh_dpos) went from unsat in 2 s to unknown after 60 s because of that.
     ctx2 = z3.Context()
-    for hyps, tmo in ((assumptions, 2000), ([a_ for a_ in assumptions if not _has_uf(a_)], 2000)):
+    uf_free = [a_ for a_ in assumptions if not _has_uf(a_)]
+    # generic position first (no input exactly zero: side conditions such as "the factor matrix has full column rank" were
+    # recorded through uninterpreted SQRT terms and are not part of the UF-free hypotheses), then without that preference
+    generic = [v != 0 for v in mk.names.values()]
+    for hyps, tmo in ((assumptions + generic, 2000), (uf_free + generic, 2000), (uf_free, 1500)):
         s = z3.Solver(ctx=ctx2)
         s.set("timeout", tmo)
         for a_ in hyps + mk.bounds():
